@@ -835,3 +835,113 @@ def operator_contract_stubs(W):
         (FlodymArray, "__neg__", neg),
         (FlodymArray, "__radd__", lambda self, other: add(self, other)),
     ]
+
+
+# ----------------------------------------------------------------------------------------
+# the binary operators verified *modularly*: every callee is replaced by its contract
+
+
+def callee_contract_stubs(W):
+    """stubs for the callees of the binary operators, each returning what its own contract (proved in the unit
+    named in brackets) specifies:
+      FlodymArray._prepare_other      [arrays.scalar_and_unary]  number -> constant array over self's dims
+      DimensionSet.intersect_with     [dimset.setops]            left order, left objects, fresh set
+      DimensionSet.union_with         [dimset.setops]            left then new right dims, fresh set
+      FlodymArray.sum_values_to       [arrays.sum_to]            marginal sums in the requested order
+      FlodymArray(dims=, values=)     [arrays.constructor]       accepts iff shapes agree; own dims copy; keeps values"""
+    import flodym.flodym_arrays as fa
+    from numbers import Number
+    from flodym.flodym_arrays import FlodymArray
+    from flodym.dimensions import DimensionSet
+    from fvc import symnp
+    from fvc.core import to_real, wrap
+    from .dimensions import mk_set, spec_intersect, spec_union
+
+    used = W.called_stubs
+
+    def prepare_other(self, other):
+        used.append("_prepare_other")
+        if isinstance(other, FlodymArray):
+            return other
+        if isinstance(other, Number):
+            X = SL.lab(W, self)
+            return materialize(W, SL.Lab(W, X.letters, X.dims, lambda asg: other))
+        raise AssertionError("Can only perform operations between two FlodymArrays or FlodymArray and scalar.")
+
+    def intersect_with(self, other):
+        used.append("intersect_with")
+        return mk_set(W, spec_intersect(list(self.dim_list), list(other.dim_list)))
+
+    def union_with(self, other):
+        used.append("union_with")
+        return mk_set(W, spec_union(list(self.dim_list), list(other.dim_list)))
+
+    def sum_values_to(self, result_dims=()):
+        used.append("sum_values_to")
+        X = SL.lab(W, self)
+        K = tuple(result_dims)
+        for l in K:
+            if l not in X.letters:
+                raise KeyError(f"Dimension {l} not found in FlodymArray dims.")
+        M = SL.marg(X, K)
+        shape = [M.size(l) for l in K]
+        return symnp.SymArr.fresh(shape, lambda idx: to_real(M.at(dict(zip(K, [wrap(i) if not isinstance(i, int) else i for i in idx])))))
+
+    class CtorMeta(type):
+        def __instancecheck__(cls, inst):
+            return isinstance(inst, FlodymArray)
+
+    class Ctor(metaclass=CtorMeta):
+        def __new__(cls, dims=None, values=None, name="unnamed"):
+            used.append("FlodymArray()")
+            dl = list(dims.dim_list)
+            shp = values.shape
+            ok = len(shp) == len(dl) and all(bool(W.size_eq(a, W.size_of(d))) for a, d in zip(shp, dl))
+            if not ok:
+                raise ValueError("Values passed to FlodymArray must have the same shape as the DimensionSet.")
+            return FlodymArray.model_construct(dims=mk_set(W, dl), values=values, name=name)
+
+    return [
+        (FlodymArray, "_prepare_other", prepare_other),
+        (DimensionSet, "intersect_with", intersect_with),
+        (DimensionSet, "union_with", union_with),
+        (FlodymArray, "sum_values_to", sum_values_to),
+        (fa, "FlodymArray", Ctor),
+    ]
+
+
+@unit(
+    "arrays.binop.modular",
+    props=["C01", "C04"],
+    targets=[
+        "flodym.flodym_arrays.FlodymArray.__add__",
+        "flodym.flodym_arrays.FlodymArray.__sub__",
+        "flodym.flodym_arrays.FlodymArray.__mul__",
+        "flodym.flodym_arrays.FlodymArray.__truediv__",
+        "flodym.flodym_arrays.FlodymArray.minimum",
+        "flodym.flodym_arrays.FlodymArray.maximum",
+    ],
+    stubs=[
+        "flodym.flodym_arrays.FlodymArray._prepare_other",
+        "flodym.dimensions.DimensionSet.intersect_with",
+        "flodym.dimensions.DimensionSet.union_with",
+        "flodym.flodym_arrays.FlodymArray.sum_values_to",
+        "flodym.flodym_arrays.FlodymArray.validate_values",
+    ],
+    skeletons=lambda tier: [{"op": op, **p} for p in sk_pairs(tier, 3, 4) for op in list(INTERSECT_OPS) + list(UNION_OPS)],
+    note="the same label-level postconditions as arrays.binop, but each operator body is checked against the *contracts* of its callees (stubs), not their bodies; symbolic world only (the concrete twin runs the real callees)",
+)
+def u_binop_modular(W, sk):
+    D, x, y = operands(W, sk)
+    op = sk["op"]
+    stubs = callee_contract_stubs(W) if W.symbolic else []
+    if op in INTERSECT_OPS:
+        out = W.call(lambda: INTERSECT_OPS[op][0](x, y), stubs=stubs)
+        SL.check_same_array(W, op, out, spec_intersect_op(W, op, x, y), fresh_from=[x, y], own_dims_from=[x, y])
+    else:
+        out = W.call(lambda: UNION_OPS[op][0](x, y), stubs=stubs)
+        exp, Y = spec_union_op(W, op, x, y)
+        hyp = (lambda asg: Y.at(asg) != 0) if op == "truediv" else None
+        SL.check_same_array(W, op, out, exp, fresh_from=[x, y], own_dims_from=[x, y], hyp=hyp)
+    if W.symbolic:
+        W.prove(f"{op}.callee_contracts_were_used", len(W.called_stubs) >= 3, kind="callee-pre", detail=str(W.called_stubs))
